@@ -3,6 +3,9 @@ package main
 // Symbolic execution engine: states, heap, obligations, the stepping loop, loops cut at headers.
 
 import (
+	"os/exec"
+	"io"
+	"bufio"
 	"context"
 	"fmt"
 	"go/token"
@@ -261,6 +264,7 @@ type Engine struct {
 	secs     float64
 	sitePos  map[string]string
 	softs    []string
+	feas      *feasProc
 	inSummary int
 	rootFree  map[string]Val // captured variables of the closure under verification
 	inductive string // contract discharged by call-graph induction (text of the clause)
@@ -1377,20 +1381,92 @@ func (e *Engine) feasible(st *State) bool {
 		}
 	}
 	body := and(qf...)
+	e.nprune++
+	if r, ok := e.feasibleIncremental(body); ok {
+		return r != "unsat"
+	}
 	ax := e.axiomText()
 	q := "(set-option :timeout 1500)\n" + e.usedDecls(body+ax) + ax + "(assert " + body + ")\n(check-sat)\n"
 	ctx, cancel := context.WithTimeout(context.Background(), 5*time.Second)
 	defer cancel()
-	t0 := time.Now()
 	out, _ := runSolver(ctx, "z3-new", []string{"-in"}, q)
-	e.nprune++
-	if os.Getenv("GOVC_FEAS") != "" {
-		fmt.Fprintf(os.Stderr, "feasible %s %.2fs len=%d\n", firstLine(out), time.Since(t0).Seconds(), len(q))
-		if time.Since(t0).Seconds() > 1.0 && e.nprune < 200 {
-			os.WriteFile(fmt.Sprintf("/tmp/feas-%d.smt2", e.nprune), []byte(q), 0o644)
+	return firstLine(out) != "unsat"
+}
+
+// feasProc: one long-lived z3 process per engine for the (many, small) feasibility queries; each
+// query is push / assert / check-sat / pop over declarations that are sent once.
+type feasProc struct {
+	cmd    *exec.Cmd
+	in     io.WriteCloser
+	out    *bufio.Reader
+	decls  int
+	axioms int
+	dead   bool
+}
+
+func (e *Engine) feasibleIncremental(body string) (string, bool) {
+	if e.feas == nil {
+		cmd := exec.Command("z3-new", "-in")
+		in, err1 := cmd.StdinPipe()
+		outp, err2 := cmd.StdoutPipe()
+		if err1 != nil || err2 != nil || cmd.Start() != nil {
+			e.feas = &feasProc{dead: true}
+			return "", false
+		}
+		e.feas = &feasProc{cmd: cmd, in: in, out: bufio.NewReader(outp)}
+		io.WriteString(in, "(set-option :timeout 1500)\n")
+	}
+	p := e.feas
+	if p.dead {
+		return "", false
+	}
+	var sb strings.Builder
+	for _, d := range e.decls[p.decls:] {
+		sb.WriteString(d + "\n")
+	}
+	p.decls = len(e.decls)
+	for _, a := range e.axioms[p.axioms:] {
+		sb.WriteString("(assert " + a + ")\n")
+	}
+	p.axioms = len(e.axioms)
+	sb.WriteString("(push)\n(assert " + body + ")\n(check-sat)\n(pop)\n")
+	if _, err := io.WriteString(p.in, sb.String()); err != nil {
+		e.closeFeas()
+		return "", false
+	}
+	type res struct {
+		line string
+		err  error
+	}
+	ch := make(chan res, 1)
+	go func() {
+		l, err := p.out.ReadString('\n')
+		ch <- res{strings.TrimSpace(l), err}
+	}()
+	select {
+	case r := <-ch:
+		if r.err != nil || (r.line != "sat" && r.line != "unsat" && r.line != "unknown") {
+			e.closeFeas() // an error message: fall back to one-shot queries
+			return "", false
+		}
+		return r.line, true
+	case <-time.After(6 * time.Second):
+		e.closeFeas()
+		return "unknown", true
+	}
+}
+
+func (e *Engine) closeFeas() {
+	if e.feas != nil && !e.feas.dead {
+		e.feas.dead = true
+		if e.feas.in != nil {
+			e.feas.in.Close()
+		}
+		if e.feas.cmd != nil && e.feas.cmd.Process != nil {
+			e.feas.cmd.Process.Kill()
+			go e.feas.cmd.Wait()
 		}
 	}
-	return firstLine(out) != "unsat"
 }
 
 // rangeLoop: a `for range` loop over a slice, array, string, map or integer (its trip count is fixed
